@@ -113,9 +113,9 @@ func H_c19_observers_t() { c19Observers(5) }
 
 // c19Canon: two canonical labellings with separate storage on separate graphs.
 func c19Canon(N int) {
-	n1 := 1 + rt.Choice("n1", N)
+	n1 := rt.Choice("n1", N+1)
 	a1 := vgAdj(n1, vgBits(n1))
-	n2 := 1 + rt.Choice("n2", N)
+	n2 := rt.Choice("n2", N+1)
 	a2 := vgAdj(n2, vgBits(n2))
 	g1, g2 := vgSparse(a1), vgSparse(a2)
 	nb := func(g *SparseGraph) [][]int {
@@ -133,13 +133,16 @@ func c19Canon(N int) {
 	p1, _, _ := CanonicalIsomorphAllocated(n1, g1.M(), nb1, o1, s1, new(CanonicalOptions))
 	ch := make(chan []int, 1<<uint(n1)+1)
 	AllMaximalCliques(g1, ch)
+	_, closed1 := vgDrain(ch)
 	rt.ActorEnd()
 	rt.ActorBegin(2)
 	o2.Reset(n2, g2.M(), nil)
 	p2, _, _ := CanonicalIsomorphAllocated(n2, g2.M(), nb2, o2, s2, new(CanonicalOptions))
 	ch2 := make(chan []int, 1<<uint(n2)+1)
 	AllMaximalCliques(g2, ch2)
+	_, closed2 := vgDrain(ch2)
 	rt.ActorEnd()
+	rt.Check(closed1 && closed2, "a producer returned without closing its channel: its consumer goroutine would never finish")
 	rt.FootprintCheck()
 	f1, f2 := CanonicalIsomorph(g1), CanonicalIsomorph(g2)
 	for i := range f1 {
